@@ -551,6 +551,9 @@ type profCase struct {
 	// boundaries drawn around the change. Whether a segment ends before it starts is a matter of (hour, minute) alone.
 	Zone string     `json:"zone,omitempty"`
 	From spec.Civil `json:"from,omitempty"`
+	// Extra: the segments map also has entries under these keys (0 from a zero-based list, 4, 200 ...), all in order: the rule is
+	// about segments 1, 2 and 3
+	Extra []uint8 `json:"extra_segment_keys,omitempty"`
 }
 
 func checkProfile(c profCase) (f *rp.Fail) {
@@ -592,7 +595,10 @@ func checkProfileZ(c profCase) *rp.Fail {
 	if c.From.Y != 0 {
 		call.From, call.To = c.From, spec.Civil{Y: c.From.Y + 1, M: 12, D: 31}
 	}
-	res := api.Invoke(u, api.Case{Call: call, V: api.Variant{WeekPresent: [7]bool{true, true, true, true, true, true, true}}})
+	if len(c.Extra) > 0 {
+		ev.Class("profile/segments-map-with-extra-keys", 1)
+	}
+	res := api.Invoke(u, api.Case{Call: call, V: api.Variant{WeekPresent: [7]bool{true, true, true, true, true, true, true}, ExtraSegments: c.Extra}})
 	if res.Panic != nil {
 		return rp.Failf("uhppote.SetTimeProfile/panic", "%v", res.Panic)
 	}
@@ -685,6 +691,9 @@ func genProfilePlain(t *rapid.T) profCase {
 		}
 		c.Segs[2*i], c.Segs[2*i+1] = a, b
 	}
+	if rapid.IntRange(0, 3).Draw(t, "extra.keys") == 0 {
+		c.Extra = rapid.SampledFrom([][]uint8{{0}, {0}, {4}, {0, 4}, {200}, {0, 255}}).Draw(t, "extra")
+	}
 	if rapid.IntRange(0, 5).Draw(t, "beyond.range") == 0 {
 		// an application that builds its segments with NewHHmm can pass values beyond 24:00 - also minutes of three digits: a
 		// segment whose end is before its start in (hour, minute) order is refused all the same
@@ -730,6 +739,7 @@ func props() []rp.Prop {
 			return hmTriple{V: [3]spec.HM{gen.HM(t, "a"), gen.HM(t, "b"), gen.HM(t, "c")},
 				Via: [3]uint8{uint8(rapid.IntRange(0, 4).Draw(t, "via.a")), uint8(rapid.IntRange(0, 4).Draw(t, "via.b")), uint8(rapid.IntRange(0, 4).Draw(t, "via.c"))}}
 		}, Check: checkHMTriple},
+		rp.P[concCmpCase]{Name: "concurrent-comparisons", Checks: ev.Pick(60, 6000) / ev.Shards(), Gen: genConcCmp, Check: checkConcCmp},
 		rp.P[beyondCase]{Name: "hhmm-beyond-range", Checks: n / 2, Gen: genBeyond, Sweep: sweepBeyond, Check: checkBeyond},
 		rp.P[dateTriple]{Name: "dates", Checks: n, Gen: genDates, Sweep: sweepDates, Check: checkDates},
 		rp.P[dtCase]{Name: "datetime", Checks: n, Gen: genDT, Check: checkDT},
